@@ -15,10 +15,13 @@ import (
 
 	"verif/harness/checks/c03"
 	"verif/harness/checks/c04"
+	"github.com/jamf/regatta/verifvp/vp"
+
 	. "verif/harness/cmdx"
 	"verif/harness/evid"
 	"verif/harness/fsmx"
 	"verif/harness/par"
+	"verif/harness/sched"
 )
 
 var wild = []byte{0}
@@ -468,7 +471,7 @@ func Run(r *evid.Run) {
 	if r.Thorough() {
 		depth = 3
 	}
-	r.Rule(fmt.Sprintf("(1) fidelity: every history of length 0..%d over the 16-entry C03 alphabet x saver format {snapshot,checkpoint} x receiver format x receiver prior state {fresh, other content at a higher index} x {no write, a write between prepare and save}; plus a write applied from inside save after its j-th output write, every j; receiver must equal the saver at prepare time (content, applied, leader index, hash), stay usable and reopen to the same. (2) stop signal at the j-th input read of recover / j-th output write of save, every j: receiver entirely old or entirely new, usable, same after reopen; saver unchanged. (3) crash at every FS operation boundary of histories containing snapshot installs (C04 machinery). (4) reads overlapping an install at API granularity: unary read, lazy stream obtained and pulled message by message, install placed before every reader step, both formats. Non-trivial: all cases; distinct = distinct (case, observed state) renderings", depth))
+	r.Rule(fmt.Sprintf("(1) fidelity: every history of length 0..%d over the 16-entry C03 alphabet x saver format {snapshot,checkpoint} x receiver format x receiver prior state {fresh, other content at a higher index} x {no write, a write between prepare and save}; plus a write applied from inside save after its j-th output write, every j; receiver must equal the saver at prepare time (content, applied, leader index, hash), stay usable and reopen to the same. (2) stop signal at the j-th input read of recover / j-th output write of save, every j: receiver entirely old or entirely new, usable, same after reopen; saver unchanged. (3) crash at every FS operation boundary of histories containing snapshot installs (C04 machinery). (4) reads overlapping an install at API granularity: unary read, lazy stream obtained and pulled message by message, install placed before every reader step, both formats. (5) the same overlap at statement granularity under the cooperative scheduler: one reader thread (unary / streamed) and one installer thread (both formats), a scheduling point before every statement of the read path and of recover, all interleavings up to the preemption bound. Non-trivial: all cases; distinct = distinct (case, observed state) renderings", depth))
 	total := par.SeqCount(len(alpha), depth)
 	types := []string{"s", "c"}
 	// (1)
@@ -573,7 +576,8 @@ func Run(r *evid.Run) {
 			}
 		}
 	}
-	r.Assume("interleaving granularity of part (4) is the API call (Lookup, one pull, RecoverFromSnapshot); statement-level preemption inside Lookup is not explored")
+	runStmtOverlap(r)
+	r.Assume("part (4) interleaves at API granularity with multi-message streams; part (5) interleaves at statement granularity (scheduling point before every statement of Lookup, lookup, rangeLookup, singleLookup, iteratorLookup, iterate and both recover implementations, inserted by the build overlay) with single-message reads, up to the preemption bound in stmt_overlap_preemption_bound; code inside pebble runs atomically between two points")
 }
 
 func Replay(raw json.RawMessage) (string, bool) {
@@ -599,4 +603,161 @@ func Replay(raw json.RawMessage) (string, bool) {
 		fmt.Fprintf(&sb, "%s: %s\n", v.sig, v.detail)
 	}
 	return sb.String(), len(vs) == 0
+}
+
+// ---------------------------------------------------------------------------------------------
+// (5) reads overlapping an install at STATEMENT granularity. Lookup, lookup, rangeLookup, iterate,
+// iteratorLookup and both recover implementations are built with a scheduling point before every
+// statement (build overlay, see cmd/mkoverlay); one reader thread and one installer thread; all
+// interleavings up to a preemption bound. A read must return the old state, the new state or an
+// error; a panic escaping the read is "brings the process down".
+
+type stmtCase struct {
+	Format  string `json:"format"` // s | c
+	Reader  string `json:"reader"` // unary | stream
+	Choices []int  `json:"choices,omitempty"`
+	Trace   string `json:"trace,omitempty"`
+}
+
+func runStmtOverlap(r *evid.Run) {
+	bound := 2
+	if r.Thorough() {
+		bound = 3
+	}
+	vp.Hook = func(label string) {
+		if t := sched.Cur(); t != nil {
+			t.Point(label)
+		}
+	}
+	defer func() { vp.Hook = nil }()
+	// donor snapshots (new state n0,n1), one per format
+	snaps := map[string][]byte{}
+	for _, f := range []string{"s", "c"} {
+		denv := fsmx.NewEnv()
+		d, _, err := denv.Open("t", 10001, srt(f))
+		if err != nil {
+			r.Violate("setup-error", err.Error(), nil)
+			return
+		}
+		_, _ = d.Update([]sm.Entry{fsmx.Entry(10, PutBatch("n0", "new", "n1", "new"))})
+		var buf bytes.Buffer
+		if err := d.SaveSnapshot(nil, &buf, nil); err != nil {
+			r.Violate("setup-error", err.Error(), nil)
+			return
+		}
+		d.Close()
+		snaps[f] = buf.Bytes()
+	}
+	const oldKeys, newKeys = "o0,o1", "n0,n1"
+	for _, f := range []string{"s", "c"} {
+		for _, reader := range []string{"unary", "stream"} {
+			var recv *fsmx.Inst
+			var readRes, instRes string
+			mk := func() sched.Scenario {
+				if recv != nil {
+					recv.Close()
+				}
+				renv := fsmx.NewEnv()
+				var err error
+				recv, _, err = renv.Open("t", 10001, srt("s"))
+				if err != nil {
+					panic(err)
+				}
+				_, _ = recv.Update([]sm.Entry{fsmx.Entry(1, PutBatch("o0", "old", "o1", "old"))})
+				readRes, instRes = "", ""
+				keysOf := func(kvs []*regattapb.KeyValue) string {
+					var ks []string
+					for _, kv := range kvs {
+						ks = append(ks, string(kv.Key))
+					}
+					return strings.Join(ks, ",")
+				}
+				return sched.Scenario{Key: func() string { return readRes + "|" + instRes }, Threads: []func(*sched.T){
+					func(t *sched.T) { // reader
+						defer func() {
+							if p := recover(); p != nil {
+								if fmt.Sprint(p) == "sched: execution aborted" {
+									panic(p)
+								}
+								readRes = fmt.Sprintf("PANIC: %v", p)
+							}
+						}()
+						req := &regattapb.RequestOp_Range{Key: wild, RangeEnd: wild, KeysOnly: true}
+						if reader == "unary" {
+							res, err := recv.F.Lookup(req)
+							if err != nil {
+								readRes = "error"
+								return
+							}
+							readRes = keysOf(res.(*regattapb.ResponseOp_Range).Kvs)
+							return
+						}
+						res, err := recv.F.Lookup(fsm.IteratorRequest{RangeOp: req})
+						if err != nil {
+							readRes = "error"
+							return
+						}
+						var all []*regattapb.KeyValue
+						res.(iter.Seq[*regattapb.ResponseOp_Range])(func(c *regattapb.ResponseOp_Range) bool {
+							all = append(all, c.Kvs...)
+							return true
+						})
+						readRes = keysOf(all)
+					},
+					func(t *sched.T) { // installer
+						if err := recv.F.RecoverFromSnapshot(bytes.NewReader(snaps[f]), nil); err != nil {
+							instRes = "error: " + err.Error()
+						} else {
+							instRes = "installed"
+						}
+					},
+				}}
+			}
+			states := map[string]struct{}{}
+			ex := &sched.Explorer{Mk: mk, MaxBound: bound, Stop: r.Expired, Horizon: 100000, States: states,
+				Check: func(x sched.Exec, _ *sched.Scenario) string {
+					c := stmtCase{Format: f, Reader: reader, Choices: x.Choices}
+					if x.Diverged != "" {
+						r.AddExtra("stmt_overlap_diverged_executions", 1)
+						r.Cap("statement-level overlap: a replayed prefix diverged: " + x.Diverged)
+						return "diverged"
+					}
+					if x.Deadlock || x.Livelock || x.Panic != "" {
+						r.Violate(fmt.Sprintf("stmt-overlap(%s)/%s/execution-abnormal", f, reader), fmt.Sprintf("deadlock=%v livelock=%v panic=%s", x.Deadlock, x.Livelock, x.Panic), c)
+						return "abnormal"
+					}
+					r.Outcome(fmt.Sprint(f, reader, readRes, instRes), true)
+					switch {
+					case strings.HasPrefix(readRes, "PANIC"):
+						e := strings.TrimPrefix(readRes, "PANIC: ")
+						if len(e) > 40 {
+							e = e[:40]
+						}
+						// where was the reader when the installer ran? (last reader label before the first installer step)
+						c.Trace = sched.TraceStr(x)
+						r.Violate(fmt.Sprintf("stmt-overlap(%s)/%s/panic(%s)", f, reader, e), fmt.Sprintf("%s read panicked: %s | trace %s", reader, readRes, c.Trace), c)
+					case readRes == oldKeys, readRes == newKeys, readRes == "error":
+					default:
+						c.Trace = sched.TraceStr(x)
+						r.Violate(fmt.Sprintf("stmt-overlap(%s)/%s/mixed-or-partial-state", f, reader), fmt.Sprintf("read keys %q (old %q new %q) | trace %s", readRes, oldKeys, newKeys, c.Trace), c)
+					}
+					if instRes != "installed" {
+						r.Violate(fmt.Sprintf("stmt-overlap(%s)/install-failed", f), instRes, c)
+					}
+					return readRes
+				}}
+			res := ex.Run()
+			if recv != nil {
+				recv.Close()
+				recv = nil
+			}
+			r.States.Add(int64(len(states)))
+			r.Transitions.Add(res.Points)
+			r.Validated.Add(res.Executions)
+			r.AddExtra("stmt_overlap_executions", res.Executions)
+			r.AddExtra("stmt_overlap_scheduling_decisions", res.Points)
+			r.Part(map[string]any{"scenario": fmt.Sprintf("statement-level overlap: %s read vs install(%s)", reader, f), "executions": res.Executions, "preemption_bound_completed": res.Bound, "distinct_read_outcomes": len(res.Outcomes), "longest_execution_steps": res.MaxLen})
+		}
+	}
+	r.Extra("stmt_overlap_preemption_bound", bound)
 }
